@@ -187,7 +187,7 @@ def chain_constructors(rep, mir, L):
         fns = [f for nm, f in mir.fns.items() if _re.match(pat, nm) and ty in f.header.split('->')[-1]]
         if len(fns) != 1: rep.unknown('C06.g %s::new not found' % ty); continue
         fn = fns[0].parse(); A = RealAlg(); vm = VM(mir, A)
-        vm.add_model(r'^(?!<u64|<f64|core::|std::ops|std::cmp).*', lambda vm, m, c, a: ret(m, Opaque(c[:40])))      # collaborators built inside new() do not matter here
+        vm.add_model(r'^(?!<u64|<f64|core::|std::ops|std::cmp|[a-z_][a-z_0-9]*$).*', lambda vm, m, c, a: ret(m, Opaque(c[:40])))      # collaborators built inside new() do not matter here (bare crate-local helpers are executed)
         args = []
         for (nm, t) in fn.args:
             if t == 'u64': args.append(z3.Int('arg_' + nm))
@@ -202,6 +202,7 @@ def chain_constructors(rep, mir, L):
         for (m2, k, v) in outs:
             if k != 'ret': bad.append((ty, 'new panics', str(v)[:100])); continue
             dc = L.get(ty, v, 'draw_count'); ch = L.get(ty, v, 'chain')
+            if isinstance(dc, Opaque) or isinstance(ch, Opaque): rep.unknown('C06.g %s::new' % ty, 'draw counter / chain id computed by a call the harness stubs'); continue
             if not (isinstance(dc, int) and dc == 0): bad.append((ty, 'a new chain does not start counting draws at 0 (draw %s would be the first): the first num_tune draws are not the tuning draws' % dc))
             if not any(z3.is_expr(ch) and z3.eq(ch, u) for u in u64s): bad.append((ty, 'the chain id is not the one passed to new', str(ch)))
             if L.get(ty, v, 'last_info').name != 'None': bad.append((ty, 'a new chain already has trajectory info'))
